@@ -49,7 +49,9 @@ contract("multidecoder.decoders.path.find_path", props=["C01", "C03", "C11"], re
 
 # ---- hexadecimal (C13): the node covers the digit run and its value is the bytes spelled by the digits
 decoder("multidecoder.decoders.hex.find_hex", ["C01", "C03", "C13"],
-        each={**T("", "decoded.hexadecimal"), "value-is-unhexlify-of-the-text-covered": "node.value == unhexlify(data[node.start : node.end])"})
+        each={**T("", "decoded.hexadecimal"), "value-is-unhexlify-of-the-text-covered": "node.value == unhexlify(data[node.start : node.end])"},
+        # the converse half of C13 for hexadecimal runs, relative to the regex contract: no match of the pattern is dropped
+        ensures={"one-node-per-match": "len(result) == nmatches(HEX_RE, data)"})
 
 # ---- javascript unescape (C14)
 decoder("multidecoder.decoders.javascript.find_unescape", ["C01", "C03", "C14"],
